@@ -558,8 +558,13 @@ class Reporter:
             "wall_s": round(time.time() - self.t0, 2),
             "violations": len(self.violations),
         }
-        os.makedirs(os.path.join(VERIF, "evidence"), exist_ok=True)
-        with open(os.path.join(VERIF, "evidence", "%s.json" % self.prop), "w") as fh:
+        # (a scratch run - another tree, another seed, tools/try_mutant_wt.sh - sets VERIF_NO_EVIDENCE: what it covered goes
+        # next to its replays, and evidence/ keeps the last run of the registered command)
+        edir = os.path.join(VERIF, "evidence")
+        if os.environ.get("VERIF_NO_EVIDENCE"):
+            edir = os.environ.get("VERIF_REPLAYS", os.path.join(VERIF, "replays"))
+        os.makedirs(edir, exist_ok=True)
+        with open(os.path.join(edir, "%s.json" % self.prop if edir.endswith("evidence") else "evidence-%s.json" % self.prop), "w") as fh:
             json.dump(ev, fh, indent=1, default=str)
         log("[%s] tier=%s seed=%d wall=%.1fs violations=%d known=%d" % (
             self.prop, self.tier, self.seed, time.time() - self.t0, len(self.violations), len(self.known_hits)))
